@@ -132,8 +132,16 @@ pub fn check(prop: &str, tier: &str) -> Option<Report> {
         .into_iter()
         .flat_map(|sc| vec![cold_world(sc.clone(), true), hot_world(&sc)])
         .collect();
+      let mut werr = werr;
+      let via_subjects: Vec<World> = werr
+        .iter()
+        .filter(|w| w.srcs[0] == SrcKind::Hot)
+        .flat_map(|w| [SrcKind::Subject, SrcKind::BehaviorSubject, SrcKind::ReplaySubject].into_iter().map(move |k| World { srcs: vec![k], acts: w.acts.clone() }))
+        .collect();
+      werr.extend(via_subjects);
       let werr = Arc::new(werr);
       let mut fams = vec![
+        (Family { name: "error at every position, depth 0 (also through the crate's subjects)".into(), pipelines: vec![Node::Src(0)], worlds: werr.clone(), oracles: vec![Oracle::Functional] }, 0),
         (Family { name: "error at every position, depth 1".into(), pipelines: depth1(&last_pos), worlds: werr.clone(), oracles: vec![Oracle::Functional] }, 1),
         (Family { name: "error at every position, depth 2".into(), pipelines: depth2(&single, &last_pos), worlds: werr.clone(), oracles: vec![Oracle::Functional] }, 2),
       ];
